@@ -101,6 +101,16 @@ def _features(old, new, ta=None, tb=None) -> List[str]:
         targets = {t.id for c in ast.walk(old) if isinstance(c, ast.comprehension) for t in ast.walk(c.target) if isinstance(t, ast.Name)}
         symbolic = {n.id for n in ast.walk(old) if isinstance(n, ast.Name)} - {"sum", "range"} - targets
         out.append("sum-closed-form-symbolic" if symbolic else "sum-closed-form-constant")
+        for r in ast.walk(old):
+            if isinstance(r, ast.Call) and isinstance(r.func, ast.Name) and r.func.id == "range":
+                try:
+                    vals = [ast.literal_eval(a) for a in r.args]
+                except (ValueError, SyntaxError):
+                    continue
+                lo, hi = (0, vals[0]) if len(vals) == 1 else (vals[0], vals[1])
+                if lo < 0 or hi < 0 or lo >= hi:
+                    out.append("sum-over-empty-or-negative-range")
+                    break
     # identifier rename that leaves other occurrences of the old identifier behind
     if isinstance(old, str) and isinstance(new, str) and old.isidentifier() and new.isidentifier() and tb is not None:
         left = {n.id for n in ast.walk(tb) if isinstance(n, ast.Name)} | \
